@@ -52,7 +52,7 @@ def check(repo, tier):
     run.rule('D5', 'constructors zeros/ones/eye/unit/rand/uniform: class invariant with the requested dims/ranks, boundary ranks 1; eye stores the identity on the (row, column) axes')
     run.rule('D6', 'residual_error: operator column contracted with the lhs mode, stacked blocks conformable; operator product: column of the left factor with row of the right factor, site by site')
     run.rule('D7', 'every returned tensor train satisfies the class invariant (cores[k].shape == (ranks[k], row_dims[k], col_dims[k], ranks[k+1]))')
-    run.rule('D8', 'norm: p = 2 is np.linalg.norm of ALL entries of core 0 of a tensor train whose cores 1..d-1 are right-orthonormal factors and which was obtained from copies of the '
+    run.rule('D8', 'norm: p = 2 is np.linalg.norm of ALL entries of one core of a tensor train whose other cores are orthonormal factors (left of it left-, right of it right-orthonormal) and which was obtained from copies of the '
              'receiver\'s cores (row and column index merged for operators) by value-preserving sweep steps; p = 1 is a maximum over the matricisation of the train with the row index '
              'of every core summed; the receiver is not modified')
     run.trusted = ['NumPy transfer functions (ttsa/fakelib.py)', 'definition of the TT format']
@@ -555,23 +555,24 @@ def norm_rule(run, repo, orders, F):
                     while isinstance(root, Arr) and id(root) not in sc.ctx.core_tokens and (root.tags.get('is_reshape') or root.origin == 'getitem') and root.parents:
                         root = root.parents[0]
                     tok = sc.ctx.core_tokens.get(id(root))
-                    if tok is None or tok[1] != 0:
-                        (bad if tok is not None else unknown).append('the measured array is not (a reshape of) the first core of a tensor train' if tok is None else f'core {tok[1]} is measured instead of core 0')
+                    if tok is None:
+                        unknown.append('the measured array is not (a reshape of) a core of a tensor train')
                     else:
-                        inst = tok[0]
+                        inst, kc = tok
                         # all entries of the core are measured: the norm argument has as many entries as the core
                         from .shape import sz_prod
                         if not sz_eq(sz_prod(x.shape), sz_prod(root.shape)):
-                            bad.append(f'only {x.shape} of the {root.shape} entries of core 0 are measured')
+                            bad.append(f'only {x.shape} of the {root.shape} entries of core {kc} are measured')
                         cs = inst._attrs['cores']
                         if len(cs) != d:
                             bad.append(f'the measured train has {len(cs)} cores')
-                        iso = {k: l2rules.core_iso(cs[k], 'RO') for k in range(1, len(cs))}
+                        # the measured core carries the whole norm iff every core to its left is a left isometry and every core to its right a right isometry
+                        iso = {k: l2rules.core_iso(cs[k], 'LO' if k < kc else 'RO') for k in range(len(cs)) if k != kc}
                         notro = [k for k, v in iso.items() if v is False]
                         if notro:
-                            bad.append(f'cores {notro} of the measured train are not right-orthonormal factors, so core 0 does not carry the norm')
+                            bad.append(f'core {kc} is measured, but cores {notro} of that train are not orthonormal factors (left of it: left-orthonormal, right of it: right-orthonormal), so it does not carry the norm')
                         elif any(v is None for v in iso.values()):
-                            unknown.append('right-orthonormality of the measured train')
+                            unknown.append('orthonormality of the measured train')
                         t_obj, init = working_object(sc)
                         if d > 1:
                             if t_obj is not inst:
